@@ -224,6 +224,8 @@ def front_request(files: dict, root: str, cwd: str = "/w", include_dirs=(), defa
     for p, v in files.items():
         if isinstance(v, str):
             fl.append({"path": p, "kind": "idl", "text": v})
+        elif "nottext" in v:
+            fl.append({"path": p, "kind": "nottext", "pos": v["nottext"]})
         elif "ext" in v:
             fl.append({"path": p, "kind": "ext", "defs": v["ext"]})
         else:
@@ -268,7 +270,7 @@ class Gen:
             if m < 0.15 and 'deprecated' in commands:
                 lines.append(r.choice(['@deprecated', '\\deprecated', '@deprecated ' + ' '.join(r.sample(words, 2)), '@deprecated  spaced  out ']))
             elif m < 0.3 and 'param' in commands:
-                lines.append('@param ' + r.choice(['p0', 'p1', 'p2', 'zz']) + r.choice(['', ' ' + ' '.join(r.sample(words, 2))]))
+                lines.append(r.choice(['@param ', '@param ', '@param ', '@param', '\\param ']) + r.choice(['p0', 'p1', 'p2', 'zz', '']) + r.choice(['', ' ' + ' '.join(r.sample(words, 2))]))
             elif m < 0.35:
                 lines.append('')
             else:
@@ -846,6 +848,15 @@ class Sandbox:
             if isinstance(v, str):
                 p.write_text(v, newline="")
                 model_files[vp] = v
+            elif "bytes_hex" in v:
+                raw = bytes.fromhex(v["bytes_hex"])
+                p.write_bytes(raw)
+                try:
+                    model_files[vp] = raw.decode("utf-8")
+                except UnicodeDecodeError as e:
+                    pre = raw[:e.start]
+                    line, col = pre.count(b"\n") + 1, len(pre.rsplit(b"\n", 1)[-1].decode("utf-8", errors="replace"))
+                    model_files[vp] = {"nottext": [line, col, line, col]}
             elif "ext" in v:
                 text, mdefs = ext_yaml(v["ext"])
                 p.write_text(text)
